@@ -35,6 +35,20 @@ def run_variant(v, props, tier):
             open(p, "w").write(s)
         res = {}
         env = dict(os.environ, VERIF_NO_EVIDENCE="1", VERIF_OUT=d)
+        if tier == "quick" and not os.environ.get("SELFTEST_SEPARATE"):
+            # all properties in one process (sa/allprops.py: same rules, shared parse / call graph / templates)
+            r = subprocess.run(["/venv/bin/python", "-B", "-m", "sa.allprops", d, ",".join(props)], capture_output=True, text=True, env=env, cwd=VERIF)
+            cur = None
+            for l in r.stdout.splitlines():
+                if l.startswith("== "):
+                    cur = l.split()[1]
+                    res[cur] = (int(l.split("rc=")[1]), [])
+                elif cur and l.startswith(("  ", "ANALYSIS-ERROR")) and len(res[cur][1]) < 6:
+                    res[cur][1].append(l)
+            for pid in props:
+                if pid not in res:
+                    res[pid] = (2, [f"ANALYSIS-ERROR property={pid} no result from sa.allprops: {r.stderr[-200:]}"])
+            return v["name"], "RAN", res
         for pid in props:
             r = subprocess.run([os.path.join(VERIF, "check"), pid, "--repo", d, "--tier", tier], capture_output=True, text=True, env=env)
             res[pid] = (r.returncode, [l for l in r.stdout.splitlines() if l.startswith(("  ", "ANALYSIS-ERROR"))][:6])
